@@ -72,12 +72,17 @@ func (a *phoutAggregator) Report(s *Sample) {
 	}
 }
 
-func (a *phoutAggregator) Run(ctx context.Context, _ core.AggregatorDeps) error {
+func (a *phoutAggregator) Run(ctx context.Context, _ core.AggregatorDeps) (err error) {
 	shouldFlush := time.NewTicker(1 * time.Second)
 	defer func() {
 		close(a.done)
-		_ = a.writer.Flush()
-		_ = a.file.Close()
+		// the last samples reach the file only here: a failing final flush or close is a failure of the run
+		if flushErr := a.writer.Flush(); err == nil && flushErr != nil {
+			err = errors.Wrap(flushErr, "phout final flush failed")
+		}
+		if closeErr := a.file.Close(); err == nil && closeErr != nil {
+			err = errors.Wrap(closeErr, "phout output file close failed")
+		}
 		shouldFlush.Stop()
 	}()
 loop:
